@@ -29,6 +29,11 @@ def scenarios(quick):
         at = 3 if ev_ == "OnRetry" else 1
         out.append(scenario(st, fns, [start(1, 0, True), env("AsyncCancel", at, 1, id="in:" + ev_)], readers=True))
         out.append(scenario(st, fns, [start(1, 0, False), env("CtxCancel", at, 1, id="in:" + ev_)]))
+    # ONE executor, no per-execution context: what happened to an earlier execution (cancelled, timed out) leaves the next one alone
+    for st in ([retry(1, dly=1)], [to(2), retry(1, dly=1)], [hg(1, 2)], []):
+        fns = [[fn(3, "R0", "E1", True)] * 3, [fn(1, "R1", None, True)] * 3, [fn(1, "R0", "E1", True)] * 3]
+        out.append(scenario(st, fns, [start(1, 0, True), env("AsyncCancel", 1, 1), start(2, 9, True), start(3, 15, False)], noctx=True))
+        out.append(scenario(st, fns, [start(1, 0, True), start(2, 9, False), start(3, 15, True), env("AsyncCancel", 15, 3)], noctx=True))
     for ct in (1, 2):
         for oc in (("R0", "E1"), ("R1", None)):
             fns = [[fn(5, oc[0], oc[1], False), fn(1, "R1")]]
